@@ -3,7 +3,7 @@ from . import gittie, syscheck
 
 PID = 'C01'
 TABLES = []
-LEAN_TARGETS = ['BertE.Props.C01']
+LEAN_TARGETS = ['BertE.Props.C01', 'BertE.Props.Full']
 ASSUMPTIONS = [
     'only the robot writes to destination branches (premise of GitWaterFlow); external actions of the histories '
     'touch source and integration branches, approvals, comments, build reports',
@@ -16,6 +16,9 @@ TRUSTED = [
     'every event of every history (refs, tip equality classes, ancestry matrix, job outcome)',
     'harness/gittie.py: the rules of Model/Git + Flow.applyOp exercised directly against bert_e/lib/git.py and '
     'git_utils (robust_merge, push) on real git: seeded scripts, every step compared',
+    'harness/fullsys.py: the closed model Model/Full.lean (composition of Eval, Select, QValidate guards, Admin, Flow) '
+    'predicts whole histories from webhook-level events; its queue-evaluation guard asks Select.Validated in addition '
+    'to the modelled validate() - that the former follows from the latter is checked on every queue evaluation of the tie',
     'harness/histories.py (history generator, translation of executed events into model events: the stage the '
     'gates allowed and the queue selection are read from the real run), harness/system.py (mock git host, real git)',
 ]
@@ -50,6 +53,10 @@ def correspondence(ctx):
     # queues against Model/QValidate.lean (C01_queue_validated): harness/qvalidate.py
     from . import qvalidate
     res.merge(qvalidate.phase(ctx, PID))
+    # the CLOSED system (Model/Full.lean, C01_full_step / C01_full_run): histories in which nothing of what Bert-E did
+    # is handed to the model - it predicts every job from the webhook-level events alone: harness/fullsys.py
+    from . import fullsys
+    fullsys.phase(ctx, res, PID)
     return res
 
 
@@ -58,6 +65,9 @@ def replay(ctx, payload):
     if g is not None:
         from .pipeline import Result
         return gittie.replay(ctx, Result(), g)
+    from . import fullsys
+    if fullsys.is_mine(payload):
+        return fullsys.replay(ctx, payload)
     from . import qvalidate
     q = qvalidate.replay_input(payload)
     if q is not None:
